@@ -227,3 +227,6 @@ _p('C09', 'exploration',
    level_text='seeded search over bookkeeping histories against a model dict/list, plus rebuild/replay equivalence; sampled evidence',
    technique='deterministic simulation: seeded bookkeeping histories vs model dict + rebuild/replay equivalence',
    design_ref='DESIGN.md 3/C09', expected_probes=['overwrite', 'identical-re-registration', 'register-None', 'last-entry-of-arity-removed', 'replay-into-empty'])
+
+PROPS['C05'].parts.append(Part('registry', {'props': ['C05'], 'shape': 'specdyn'}, configs=[(C, 2), (PY, 2)], quick=4000, thorough=200000,
+                               name='registry/C05/specs', timeout=40.0))
